@@ -145,6 +145,13 @@ MUTANTS = [
     ("c17-new-13", "C17", "basictdf.py", "            for _ in range(nEntries):\n                # type", "            for _ in range(nEntries - 1):\n                # type"),
     ("c20-events-class-attr", "C20", "tdfEvents.py", "        self.events = []\n", "        self.events = TemporalEventsData._shared\n"),
     ("c20-emg-default", "C20", "tdfEMG.py", "        self._signals = []\n        self._emgMap = []", "        self._signals = EMG._pool\n        self._emgMap = []"),
+    # environment faults added in round 1, wave 6: each needs one of them to show
+    ("c09-offset-from-path-size", "C09", "basictdf.py", "offset=self.entries[unusedBlockPos].offset,", "offset=self.nBytes,"),  # chdir
+    ("c07-text-errors-replace", "C07", "tdfTypes.py", "            return la[:pos].decode(encoding)\n", '            return la[:pos].decode(encoding, errors="replace")\n'),  # undefined cp1252 byte in a table comment
+    ("c08-warn-in-enter", "C08", "basictdf.py", "        self.entries = [TdfEntry._build(self.handler) for _ in range(self.nEntries)]\n",
+     "        self.entries = [TdfEntry._build(self.handler) for _ in range(self.nEntries)]\n        if self.handler.writable() and self.nEntries < 14:\n            import warnings\n            warnings.warn('short table')\n"),  # python -W error
+    ("c06-date-unsigned", "C06", "tdfTypes.py", 'return datetime.fromtimestamp(struct.unpack("<i", data)[0])', 'return datetime.fromtimestamp(struct.unpack("<I", data)[0])'),  # dates before 1970
+    ("c02-emg-remove-keeps-map", "C02", "tdfEMG.py", "        del self._signals[pos]\n        del self._emgMap[pos]\n", "        del self._signals[pos]\n"),  # item removed, then stored
 ]
 
 
